@@ -101,6 +101,7 @@ fn main() {
     let mut xcases: u64 = 100;
     let mut xcase: Option<u64> = None;
     let mut xsummary: Option<String> = None;
+    let mut extra_json: Option<String> = None;
     let mut i = 0;
     while i < args.len() {
         let a = args[i].as_str();
@@ -140,6 +141,7 @@ fn main() {
             "--xcases" => xcases = val().parse().unwrap_or(100),
             "--xcase" => xcase = val().parse().ok(),
             "--xsummary" => xsummary = Some(val()),
+            "--extra-json" => extra_json = Some(val()),
             _ => {
                 eprintln!("unknown argument {a}");
                 std::process::exit(2)
@@ -166,6 +168,7 @@ fn main() {
         write_evidence: evidence && replay.is_none() && runs.is_none(),
         survey,
         xsummary,
+        extra_json,
     };
     if xexport.is_some() || ximport.is_some() {
         let range = match xcase {
